@@ -130,7 +130,7 @@ def annotSpec (lines : List LineIn) (oracle : List (Nat × Nat × Nat × Bool)) 
   else bad := bad ++ ["err:" ++ err]
   return bad
 
-def annotHandler : Handler := fun input impl => do
+def annotHandler : Handler := fun _prop input impl => do
   let linesJ ← jarr input "lines"
   let lines : List LineIn := linesJ.toList.map fun j =>
     let t := (jstrD j "t").toList
